@@ -13,9 +13,15 @@ SUITES = {
         "packets1/zz_verif_canon.go": "packets1_canon.go",
         "packets1/zz_verif_drv_test.go": "packets1_drv_test.go",
         "topics/zz_verif_drv_test.go": "topics_drv_test.go",
+        "transactions/zz_verif_drv_test.go": "transactions_drv_test.go",
+        "transactions/zz_verif_store_test.go": "transactions_store_test.go",
+        "util/zz_verif_drv_test.go": "util_drv_test.go",
     },
     "codec": {"pkg": "./packets1/", "run": "TestVerifCodec$", "driver": "codec", "timeout": "30m"},
     "topics": {"pkg": "./topics/", "run": "TestVerifTopics$", "driver": "topics", "timeout": "10m"},
+    "tx": {"pkg": "./transactions/", "run": "TestVerifTx$", "driver": "tx", "timeout": "20m"},
+    "store": {"pkg": "./transactions/", "run": "TestVerifStore$", "driver": "store", "timeout": "10m"},
+    "idseq": {"pkg": "./util/", "run": "TestVerifIDSeq$", "driver": "idseq", "timeout": "10m"},
 }
 
 
@@ -79,5 +85,36 @@ PROPS = {
                                      "Spec.specName as the statement of 'client-specific entry, otherwise the * entry'"],
         "assumptions": ["Go map iteration may return any matching entry: the model returns the set of admissible answers"],
         "explanation": "theorems c05_name (lookup by ID = client entry else * entry) and c05_id_sound/c05_readback (every admissible GetTopicID answer reads back as the name) for ALL configurations",
+    },
+    "C18": {
+        "level_text": "Lean theorem c18: for every sequence of Success/Fail/Proceed/cancel events and timer callbacks of ANY generation ever armed (Stop() assumed never to help) the completion callback runs exactly once, Err() never changes after Done, no retry callback starts and no timer is armed after Done; the method-atomic granularity is justified by the regenerated lock facts (c18_lock_*). Tie: real RetryTransaction/TimedTransaction under a virtual clock vs the model (exact logs), forced interleavings with a blocked callback in real time, and an immediate-timer stress loop",
+        "technique": "Lean 4 invariant proof over an adversarial-timer model + regenerated lock facts + differential correspondence under testing/synctest",
+        "suites": ["tx"],
+        "relevant": lambda line: line.startswith("DIFF tx"),
+        "rule": "scripts of timed Proceed/Success/Fail/cancel operations on the real RetryTransaction/TimedTransaction under testing/synctest (all N in 0..6 x D in {1,10,1000,10000} with an operation at every multiple and off-multiple, random scripts, zero delays), 16 forced interleavings (callback blocked inside timeout() while Success/Fail/Proceed/cancel run) and 220000 immediate-timer constructions in real time; each case is one script",
+        "trusted_base": TB_COMMON + ["Bisquitt/Model/Tx.lean (method-atomic model; adversarial timers)", "Go's sync.Mutex and testing/synctest's virtual clock",
+                                     "the sleepTransaction of the client library is covered by the client suite, not here"],
+        "assumptions": ["methods that hold the mutex for their whole body are atomic with respect to each other (sync.Mutex); State/Data reads by embedding code outside the mutex are not covered"],
+        "explanation": "theorems c18, c18_done_monotone, base_done_stable, c18_lock_base, c18_lock_retry",
+    },
+    "C19": {
+        "level_text": "Lean theorems c19_retry (callbacks exactly at t0+k*D for k=1..N, then noMoreRetries at t0+(N+1)*D, for ALL N, D, t0), c19_proceed_resets, c19_timed, c19_timed_completed over the timed model; tie: exact equality of virtual-clock logs of the real transactions with the model",
+        "technique": "Lean 4 induction over a timed model + differential correspondence under testing/synctest (exact virtual timestamps)",
+        "suites": ["tx"],
+        "relevant": lambda line: line.startswith("DIFF tx X"),
+        "rule": "same scripts as C18 (mode 1): every N in 0..6, D in {1,10,1000,10000}, progress/ack at every multiple and off-multiple of D, random scripts, zero delays; compared line by line including timestamps",
+        "trusted_base": TB_COMMON + ["Bisquitt/Model/Tx.lean (timed semantics)", "testing/synctest as an exact virtual clock"],
+        "assumptions": ["operations never coincide with a timer deadline to the millisecond (ties belong to C18)"],
+        "explanation": "theorems runUntil_budget, c19_retry, c19_retry_quiet, c19_proceed_resets, c19_timed, c19_timed_completed",
+    },
+    "C29": {
+        "level_text": "Lean theorems c29_idseq / c29_cycle_value / c29_overflow / c29_distinct for EVERY range min<=max and any number of calls, store_* lemmas (two independent finite maps), and the regenerated lock facts c29_lock_*; tie: the real IDSequence on all small ranges at the boundaries of uint16, the ranges the code uses across a wrap, random ranges, and concurrent runs (16 goroutines) whose result multiset must equal the sequential prefix; the real TransactionStore on random and concurrent op sequences",
+        "technique": "Lean 4 induction + regenerated lock facts + differential correspondence (sequential and concurrent)",
+        "suites": ["idseq", "store"],
+        "relevant": lambda line: line.startswith("DIFF idseq") or line.startswith("DIFF store"),
+        "rule": "IDSequence: every range of width<=7 at 17 positions incl. 65528..65535 for 3 cycles, 1..0xFFFE / 1..0xFFFF / 0..0xFFFF across the wrap, random ranges; 5 concurrent configurations x 10 repetitions; TransactionStore: 500 random sequential op lists and 20x8 concurrent per-owner histories",
+        "trusted_base": TB_COMMON + ["Bisquitt/Model/IdSeq.lean", "Go's sync.Mutex / sync.RWMutex"],
+        "assumptions": ["a method whose body is Lock(); defer Unlock(); ... is atomic with respect to the others (sync.Mutex semantics)"],
+        "explanation": "theorems c29_idseq, c29_idseq_fresh, c29_cycle_value, c29_overflow, c29_distinct, store_*, c29_lock_idsequence, c29_lock_store",
     },
 }
